@@ -74,18 +74,64 @@ func workerTty(r *vk.Run, w, n int, args []string) {
 			input := ""
 			s.WaitQuiescent(20 * time.Second)
 			bad := false
-			for k := 0; k < rng.Intn(8) && !bad; k++ {
+			loopEnds := func() int {
+				c := 0
+				for _, e := range s.Trace() {
+					if e.Kind == "term.loop_end" {
+						c++
+					}
+				}
+				return c
+			}
+			// a raw key is synchronised in logical time: the UI loop must have finished one more iteration
+			rawKey := func(key string) bool {
+				before := loopEnds()
+				s.SendKeys(key)
+				deadline := time.Now().Add(20 * time.Second)
+				for loopEnds() <= before {
+					if _, ex := s.ExitCode(); ex || time.Now().After(deadline) {
+						return false
+					}
+					time.Sleep(3 * time.Millisecond)
+				}
+				return true
+			}
+			steps := rng.Intn(8)
+			for k := 0; k < steps && !bad; k++ {
 				var post string
-				switch rng.Intn(4) {
+				raw := false
+				switch rng.Intn(8) {
 				case 0:
 					ch := []string{"a", "o", "z"}[rng.Intn(3)]
 					post, input = "put("+ch+")", input+ch
 				case 1, 2:
 					post, input = "prev-history", ms.Prev(input)
-				default:
+				case 3:
 					post, input = "next-history", ms.Next(input)
+				case 4:
+					// documented: with --history CTRL-P / CTRL-N are remapped to the history actions
+					post, raw, input = "C-p", true, ms.Prev(input)
+				case 5:
+					post, raw, input = "C-n", true, ms.Next(input)
+				case 6:
+					post = "backward-delete-char"
+					if rs := []rune(input); len(rs) > 0 {
+						input = string(rs[:len(rs)-1])
+					}
+				default:
+					q := []string{"foo", "ba", "zz top", "o"}[rng.Intn(4)]
+					post, input = "change-query("+q+")", q
 				}
-				s.Post(post)
+				if raw {
+					if !rawKey(post) {
+						r.Inconclusive("history session: raw key " + post + " not consumed")
+						s.Close()
+						return
+					}
+					r.Count("tty_raw_keys", 1)
+				} else {
+					s.Post(post)
+				}
 				log = append(log, post)
 				st, ok := s.WaitQuiescent(20 * time.Second)
 				if !ok {
@@ -104,8 +150,35 @@ func workerTty(r *vk.Run, w, n int, args []string) {
 				s.Close()
 				return
 			}
-			end := []string{"accept", "accept", "abort"}[rng.Intn(3)]
-			s.Post(end)
+			// endings: every way of completing the session submits the query (exit status 0 or 1, or become);
+			// every way of leaving it (abort, ctrl-c, a refused accept-non-empty followed by abort) does not
+			end := []string{"accept", "Enter", "abort", "C-c", "become(true)", "print-query", "accept-or-print-query", "accept-non-empty"}[rng.Intn(8)]
+			submitted := true
+			switch end {
+			case "Enter", "C-c":
+				s.SendKeys(end)
+				submitted = end == "Enter"
+			case "abort":
+				s.Post(end)
+				submitted = false
+			case "accept-non-empty":
+				st0, _ := s.Get(10)
+				s.Post(end)
+				if st0 == nil {
+					r.Inconclusive("history session: GET before the ending failed")
+					s.Close()
+					return
+				}
+				if st0.MatchCount == 0 {
+					// refused: the session goes on; leaving it now must not record the query
+					s.WaitQuiescent(20 * time.Second)
+					s.Post("abort")
+					submitted = false
+					end = "accept-non-empty (refused) + abort"
+				}
+			default:
+				s.Post(end)
+			}
 			log = append(log, fmt.Sprintf("%s with query %q", end, input))
 			rc, exited := s.WaitExit(20 * time.Second)
 			s.Close()
@@ -113,15 +186,12 @@ func workerTty(r *vk.Run, w, n int, args []string) {
 				r.Inconclusive("history session did not end")
 				return
 			}
-			if end == "accept" {
-				// exit 0 (match) or 1 (no match): the query was submitted either way
+			if submitted {
 				if nf := m.Submit(input); nf != nil {
 					file = nf
 				}
-				r.Distinct(fmt.Sprintf("tty accept rc%d max%d", rc, max))
-			} else {
-				r.Distinct(fmt.Sprintf("tty abort max%d", max))
 			}
+			r.Distinct(fmt.Sprintf("tty %s rc%d max%d", end, rc, max))
 			r.Count("tty_sessions", 1)
 			r.Eval(1)
 			disk, _ := os.ReadFile(path)
